@@ -1,7 +1,7 @@
 SPECIFICATION Spec
 CONSTANTS
   Names = {"a", "b", "c"}
-  MaxId = 5
+  MaxId = 4
   BadKinds = {"noname", "nomachine", "nopid", "noep", "emptyep"}
   Eps = {"e1", "e2"}
 INVARIANTS TypeOK NameHeldByAtMostOne VisibleIffReady EventsOncePerTransitionInOrder
